@@ -365,7 +365,26 @@ pub fn plan_creator(w: &World, _k: &Knobs, actor: &mut Actor, l: &Ledger, now: i
     RAW_EVENTS.with(|r| r.borrow_mut().push(HEvent::Put { key: mint, lamports, owner, data, tag: format!("fabricated mint exts={:?} freeze={} truncated={}", fab.exts, fab.freeze, fab.truncated) }));
     // badge variants: none / real badge / lamports at the badge address
     let badge = ix::pda_token_badge(&config, &mint);
-    match rng.below(4) {
+    // a look-alike badge nobody issued: TokenBadge bytes naming this config and mint, at some other address, owned by a
+    // stranger program (or by a look-alike of the whirlpool program id); used in the badge slots below
+    let mut forged_badge: Option<Pubkey> = None;
+    if rng.chance(1, 6) {
+        let fk = new_key(rng);
+        let mut d = vec![0u8; 200];
+        d[..8].copy_from_slice(&decode::disc("TokenBadge"));
+        d[8..40].copy_from_slice(config.as_ref());
+        d[40..72].copy_from_slice(mint.as_ref());
+        let forger = if rng.chance(1, 2) {
+            new_key(rng)
+        } else {
+            let mut b = ix::wp().to_bytes();
+            b[15] ^= 0x5a;
+            Pubkey::new_from_array(b)
+        };
+        RAW_EVENTS.with(|r| r.borrow_mut().push(HEvent::Put { key: fk, lamports: 2_282_880, owner: forger, data: d, tag: "forged token badge (not issued by the badge authority)".into() }));
+        forged_badge = Some(fk);
+    }
+    match if forged_badge.is_some() { 3 } else { rng.below(4) } {
         0 | 1 => {
             flow.push((
                 tx1(ix::mk(
@@ -469,6 +488,18 @@ pub fn plan_creator(w: &World, _k: &Knobs, actor: &mut Actor, l: &Ledger, now: i
                     "initialize_reward_v2".into(),
                 ));
             }
+        }
+    }
+    if let Some(fk) = forged_badge {
+        for (tx, tag) in flow.iter_mut() {
+            for i in tx.ixs.iter_mut() {
+                for m in i.accounts.iter_mut() {
+                    if m.pubkey == badge {
+                        m.pubkey = fk;
+                    }
+                }
+            }
+            tag.push_str(" [forged badge]");
         }
     }
     actor.rng = rng.clone();
